@@ -125,6 +125,22 @@ func scenario(c cfg) {
 	var appRead int64     // bytes the application has read
 	var maxAdvEdge int64 = -1
 	reading := true
+	var ooo [][2]int64 // out-of-order pieces the stack holds
+	absorb := func() {
+		for changed := true; changed; {
+			changed = false
+			for i, iv := range ooo {
+				if iv[0] <= peerSent {
+					if iv[1] > peerSent {
+						peerSent = iv[1]
+					}
+					ooo = append(ooo[:i], ooo[i+1:]...)
+					changed = true
+					break
+				}
+			}
+		}
+	}
 	checkEmitted := func(segs []rawpeer.Seg, ctx string) {
 		for _, s := range segs {
 			if s.Err != nil {
@@ -216,7 +232,7 @@ func scenario(c cfg) {
 	}
 	windows := []uint16{0, 0, 1, uint16(conn.PeerMSS - 1), uint16(conn.PeerMSS), 1000, 4000, 20000, 65535}
 	for step := 0; step < c.Steps && !bad; step++ {
-		switch r.Intn(10) {
+		switch r.Intn(13) {
 		case 0, 1, 2: // application write
 			n := []int{1, 10, 536, 1460, 5000, 70000, 1 << 20}[r.Intn(7)]
 			if written > 3<<20 {
@@ -290,6 +306,7 @@ func scenario(c cfg) {
 			before := peerSent
 			psend(peerSent, peerAcked, rfc.ACK|rfc.PSH, lastWnd, pl)
 			peerSent += n
+			absorb()
 			segs := conn.Take()
 			tr("peer data [%d,%d) -> %v", before, peerSent, segs)
 			checkEmitted(segs, "after in-window data")
@@ -320,6 +337,47 @@ func scenario(c cfg) {
 				}
 			}
 			run.Count("in_window_segments_injected", 1)
+		case 10: // peer data wholly beyond the advertised right edge: never deliverable
+			if maxAdvEdge < 0 {
+				continue
+			}
+			at := maxAdvEdge + int64(1)<<ownShift + int64(r.Intn(3000))
+			pl := make([]byte, 1+r.Intn(600))
+			for i := range pl {
+				pl[i] = 0xEE
+			}
+			psend(at, peerAcked, rfc.ACK|rfc.PSH, lastWnd, pl)
+			tr("peer sends %d bytes at %d, wholly beyond the advertised edge %d", len(pl), at, maxAdvEdge)
+			run.Count("beyond_window_segments_injected", 1)
+			checkEmitted(conn.Take(), "after beyond-window data")
+			if reading {
+				readAll()
+			}
+		case 11: // peer data out of order inside the window (leaves a hole; SACK blocks follow)
+			if maxAdvEdge < 0 || maxAdvEdge-peerSent < 200 {
+				continue
+			}
+			gap := int64(1 + r.Intn(100))
+			n := int64(1 + r.Intn(80))
+			if peerSent+gap+n > maxAdvEdge {
+				continue
+			}
+			pl := make([]byte, n)
+			for i := range pl {
+				pl[i] = tcpx.PByte(uint64(c.K), 1, peerSent+gap+int64(i))
+			}
+			psend(peerSent+gap, peerAcked, rfc.ACK|rfc.PSH, lastWnd, pl)
+			ooo = append(ooo, [2]int64{peerSent + gap, peerSent + gap + n})
+			tr("peer sends out-of-order data [%d,%d) (next in order is %d)", peerSent+gap, peerSent+gap+n, peerSent)
+			run.Count("out_of_order_segments_injected", 1)
+			checkEmitted(conn.Take(), "after out-of-order data")
+		case 12: // the application changes its receive buffer size
+			nb := []int{4096, 8192, 65536, 1 << 20}[r.Intn(4)]
+			conn.EP.SetSockOpt(tcpip.ReceiveBufferSizeOption(nb))
+			rawpeer.Settle()
+			tr("receive buffer set to %d", nb)
+			run.Count("receive_buffer_changes", 1)
+			checkEmitted(conn.Take(), "after a receive-buffer change")
 		case 9: // the application stops / resumes reading
 			reading = !reading
 			tr("application reading=%v", reading)
@@ -351,6 +409,7 @@ func scenario(c cfg) {
 			}
 			psend(peerSent, peerAcked, rfc.ACK, lastWnd, pl)
 			peerSent += n
+			absorb()
 			checkEmitted(conn.Take(), "filling the window")
 		}
 		if !bad {
